@@ -8,10 +8,11 @@ open XrsVerif.Meta
 
 def Entry.contract (e : Entry) : Contract := contractOf e.name e.params
 
-/-- the aliasing obligation of a public function: no input buffer is ever written, and -- unless the
-    function is documented to return a view -- the result's buffer is not an input buffer -/
+/-- the aliasing obligation of a public function: no input buffer (cells, coordinates, attrs of any
+    parameter) is ever written, and -- unless the function is documented to return a view -- none of the
+    result's components (cells, coordinates, attrs) lies in an input buffer -/
 def entryOk (e : Entry) : Bool :=
-  if e.contract.retMayAlias then noInputWrite e.prog (inputs e.k) else safe e.prog (inputs e.k) e.ret
+  if e.contract.retMayAlias then noInputWrite e.prog (inputs e.k) else safeAll e.prog (inputs e.k) e.ret.slots
 
 /-- the metadata obligation: every reachable `return` conforms to the contract and only documented
     parameters are re-bound -/
